@@ -22,6 +22,13 @@ pub fn opt_part(o: &Opt) -> String {
 /// Deterministic: depends only on the minimal case.
 pub fn signature(min: &Minimal) -> String {
     let t = tygen::shape_trigger(&min.ty, &min.v);
+    // a unit variant written as a folded block scalar (name longer than folded_wrap_chars)
+    if min.o.folded_wrap_chars != Opt::default().folded_wrap_chars
+        && !matches!(t.as_str(), "tuple-struct" | "tuple-variant")
+        && tygen::any_node(&min.ty, &min.v, &|t, x| tygen::kind(t, x) == "unit-variant")
+    {
+        return "C13:unit-variant:emitted-as-folded-block-scalar".into();
+    }
     match t.as_str() {
         // classes defined by the shape alone (whatever options happen to be needed as well)
         "tuple-struct" | "tuple-variant" | "string-with-carriage-return" | "key-longer-than-1024" | "block-scalar-with-leading-space" => {
